@@ -113,12 +113,16 @@ func cliN(i int) *Program {
 }
 
 type cliOpts struct {
-	Header string // "", "ok", "missing"
+	Header string // "", "ok"; unusable: "missing", "dir", "notgo", "opencomment"
 	Prefix string
 	Tags   string
 }
 
 func (o cliOpts) key() string { return o.Header + "|" + o.Prefix + "|" + o.Tags }
+
+// unusable: the header option names something that cannot serve as the start of a Go file
+// (no such file, a directory, plain text, a comment that never closes)
+func (o cliOpts) unusable() bool { return o.Header != "" && o.Header != "ok" }
 
 func (o cliOpts) args(cmd string, headerPath string) []string {
 	var a []string
@@ -128,6 +132,12 @@ func (o cliOpts) args(cmd string, headerPath string) []string {
 			a = append(a, "-header_file", headerPath)
 		case "missing":
 			a = append(a, "-header_file", headerPath+".does-not-exist")
+		case "dir":
+			a = append(a, "-header_file", filepath.Dir(headerPath))
+		case "notgo":
+			a = append(a, "-header_file", headerPath+".notgo")
+		case "opencomment":
+			a = append(a, "-header_file", headerPath+".opencomment")
 		}
 	}
 	if cmd == "gen" && o.Prefix != "" {
@@ -158,6 +168,8 @@ func prepareModule(e *Env, root string, progs []*Program) error {
 			return err
 		}
 	}
+	os.WriteFile(filepath.Join(root, "header.txt.notgo"), []byte("Copyright 2026 Example Inc. All rights reserved.\n\n"), 0o644)
+	os.WriteFile(filepath.Join(root, "header.txt.opencomment"), []byte("/* Copyright 2026 Example Inc.\n   All rights reserved.\n"), 0o644)
 	return os.WriteFile(filepath.Join(root, "header.txt"), []byte(headerText), 0o644)
 }
 
@@ -187,7 +199,7 @@ func (rc *refCache) get(p *Program, o cliOpts) ([]byte, error) {
 	}
 	o2 := o
 	o2.Prefix = ""
-	if o2.Header == "missing" {
+	if o2.unusable() {
 		o2.Header = ""
 	}
 	args := append([]string{"gen"}, o2.args("gen", filepath.Join(root, "header.txt"))...)
@@ -269,13 +281,18 @@ func genScenario(e *Env, i int) cliScenario {
 	case 1:
 		s.Opts.Header = "ok"
 	case 2:
-		s.Opts.Header = "missing"
+		s.Opts.Header = []string{"missing", "notgo", "opencomment", "dir"}[(i/7)%4]
 	case 3:
 		s.Opts.Prefix = "gen_"
 	case 4:
 		s.Opts.Tags = "extra"
 	case 5:
 		s.Opts = cliOpts{Header: "ok", Prefix: "zz_", Tags: "extra"}
+	case 6:
+		// a prefix that would move the output out of the package's directory
+		if (i/7)%2 == 1 {
+			s.Opts.Prefix = []string{"../up_", "../../top_", "nested/", "../app/../side_"}[(i/14)%4]
+		}
 	}
 	s.Form = "gen ./..."
 	if s.Opts.key() == "||" {
@@ -402,13 +419,22 @@ func runCLI(e *Env, rep *Report, rc *refCache, s cliScenario, cmd string, mu *sy
 	obs := fmt.Sprintf("exit=%d changed=%v\nstderr:\n%s", res.Exit, changed, tail(res.Stderr, 1500))
 	switch cmd {
 	case "gen":
-		if s.Opts.Header == "missing" {
+		if s.Opts.unusable() {
 			if res.Exit == 0 {
-				fail("gen with an unreadable header file exited 0", obs)
+				fail("gen with an unusable header file ("+s.Opts.Header+") exited 0", obs)
 				return
 			}
 			if len(changed) > 0 {
-				fail("gen with an unreadable header file modified the tree", obs)
+				fail("gen with an unusable header file ("+s.Opts.Header+") modified the tree", obs)
+				return
+			}
+			break
+		}
+		if strings.ContainsAny(prefix, "/\\") {
+			// "<prefix>wire_gen.go in the directory of the package" does not exist for such a
+			// prefix: whatever wire does, it must not write anywhere else
+			if len(changed) > 0 {
+				fail(fmt.Sprintf("gen with a path separator in -output_file_prefix (%q) created or modified %v", prefix, changed), obs)
 				return
 			}
 			break
@@ -450,7 +476,7 @@ func runCLI(e *Env, rep *Report, rc *refCache, s cliScenario, cmd string, mu *sy
 		}
 		want := 0
 		switch {
-		case s.Opts.Header == "missing":
+		case s.Opts.unusable():
 			want = 2
 		case anyF:
 			want = 2
@@ -458,7 +484,7 @@ func runCLI(e *Env, rep *Report, rc *refCache, s cliScenario, cmd string, mu *sy
 			want = 1
 		}
 		if res.Exit != want {
-			fail(fmt.Sprintf("diff exit status %d, want %d (unusable option=%v, failing package=%v, differing/absent output=%v)", res.Exit, want, s.Opts.Header == "missing", anyF, anyDiff), obs)
+			fail(fmt.Sprintf("diff exit status %d, want %d (unusable option=%v, failing package=%v, differing/absent output=%v)", res.Exit, want, s.Opts.unusable(), anyF, anyDiff), obs)
 			return
 		}
 	case "check", "show":
